@@ -258,7 +258,9 @@ impl<T: WaveformData> CommonBuiltinParameters<T> {
 
         let sample_count_fract = duration * sample_rate;
         let sample_count = sample_count_fract.round();
-        let misalignment = sample_count_fract - sample_count;
+        // Both in seconds: the part of the duration not covered by whole samples, and 1% of the
+        // duration of one sample.
+        let misalignment = (sample_count_fract - sample_count) / sample_rate;
         let max_misalignment = 1.0 / (sample_rate * 100.0);
 
         if sample_count < 0.0 || sample_count >= f64::from(u32::MAX) {
